@@ -26,11 +26,19 @@ def run_gym(kind, script, ag, calls):
     out = []
     for c in calls:
         before = len(trace)
+        kw_lost = False
         if c[0] == "r":
-            st, val = mgr.guarded(lambda: env.reset())
+            if len(out) % 2 == 1:
+                # keyword arguments of reset (gymnasium's own `seed=` / `options=` among them) belong to the simulation:
+                # the adapter hands them to the manager, the manager to the simulation
+                kws = {"seed": 7 + len(out), "options": {"start": len(out)}, "flavour": "x"}
+                st, val = mgr.guarded(lambda: env.reset(**kws))
+                kw_lost = st == "ok" and getattr(sim, "last_reset_kwargs", None) != kws
+            else:
+                st, val = mgr.guarded(lambda: env.reset())
         else:
             st, val = mgr.guarded(lambda: env.step(c[1]))
-        if len(trace) != before + 1:
+        if len(trace) != before + 1 or kw_lost:
             # the adapter must make exactly one manager call; anything else is visible as a malformed item
             ent = [["r"], [["e", "crash"], ["n"], [0] * sim.n, sim.ghost()]]
         else:
